@@ -40,7 +40,7 @@ def _worker(args):
     try:
         ctx = mod.make_ctx(widx, tier, opts)
         state = {}
-        shrink_budget = 40 if tier == "quick" else 150
+        shrink_budget = float(os.environ.get("VERIF_SHRINK_BUDGET", 40 if tier == "quick" else 150))
 
         @hseed(sd * 1000 + widx)
         @settings(max_examples=ncases, database=None, deadline=None, derandomize=False, report_multiple_bugs=False,
